@@ -196,7 +196,7 @@ def check(spec) -> Outcome:
 
     env, err = lib(Envelope, core_track(data))
     if not err:
-        for k_, a_, ok in ((wrong, aad, False), (key, aad, True), (key, b"other-aad", False), (key, aad, True)):
+        for k_, a_, ok in ((wrong, aad, False), (key, aad, True), (key, (aad or b"") + b"\x01", False), (key, aad, True)):
             got, err = lib(env.decrypt, k_, aad=a_)
             if ok and (err or got != payload):
                 out.fail("mismatch|decrypt-after-rejection", "a correct decrypt() after a rejected one on the same Envelope object "
